@@ -6,16 +6,6 @@ Import ListNotations.
 Require Import Model.C12_Refine Model.C12_Geom Proofs.C12_RefineProofs Proofs.C12_GeomProofs Gen.C12Gen.
 Local Open Scope nat_scope.
 
-Definition mk_spec tpls pb (oe of_ oc : nat -> nat -> nat -> nat) : spec :=
-  {| sp_tpls := tpls; sp_pblocks := pb;
-     sp_off := fun sz mE mF => {| offE := oe sz mE mF; offF := of_ sz mE mF; offC := oc sz mE mF |} |}.
-
-Definition line_spec := mk_spec gen_line_templates gen_line_pblocks gen_line_offE gen_line_offF gen_line_offC.
-Definition tri_spec := mk_spec gen_tri_templates gen_tri_pblocks gen_tri_offE gen_tri_offF gen_tri_offC.
-Definition quad_spec := mk_spec gen_quad_templates gen_quad_pblocks gen_quad_offE gen_quad_offF gen_quad_offC.
-Definition tet_spec := mk_spec gen_tet_templates gen_tet_pblocks gen_tet_offE gen_tet_offF gen_tet_offC.
-Definition hex_spec := mk_spec gen_hex_templates gen_hex_pblocks gen_hex_offE gen_hex_offF gen_hex_offC.
-
 (* ------------------------------------------------------------------ counts: 2^d children *)
 Lemma line_ntemplates : length gen_line_templates = 2. Proof. reflexivity. Qed.
 Lemma tri_ntemplates : length gen_tri_templates = 4. Proof. reflexivity. Qed.
